@@ -23,14 +23,15 @@ MANIFEST = {
 		'shipped schemas (kernel computation per run); every member of every struct of a well-formed schema is classified into a supported '
 		'branch of the interpreter; a classified member never takes a Crash "Unsupported" branch on serialize or deserialize; serialize, size, '
 		'deserialize and factory-deserialize of a well-formed schema never answer "Unsupported" for any value, buffer and fuel (premise: the '
-		'sort-key view of the value does not). Per generated PROGRAM: random dialect schemas '
+		'sort-key view of the value does not); wf_no_unsupported removes that premise for wf_schema_full = wf_schema && wf_keys (Cats/DialectKeys.v; '
+		'serialize over shape-admissible values, size/deserialize/factory over all values and buffers), true of both shipped schemas. Per generated PROGRAM: random dialect schemas '
 		'(harness/dialect.py: recombinations of the shipped member forms with fresh names, widths, orders, nesting) go through the real CLI + '
-		'generator twice (identical text), the module is imported beside copies of the real ArrayHelpers/BaseValue/ByteArray, wf_schema of its '
+		'generator twice (identical text), the module is imported beside copies of the real ArrayHelpers/BaseValue/ByteArray, wf_schema_full of its '
 		'regenerated schema term is evaluated by the kernel, and the full C01 differential (serialize/size/deserialize/factory on admissible '
 		'values + mutated encodings) runs against Layout of that schema, with the round-trip/size/factory/decode-encode-decode oracles on the '
 		'real module. Fixed probe schemas (dialect.PROBES) replay known generator idiosyncrasies under stable signatures.',
 	'design_ref': 'DESIGN.md section 4, C15 (stage 1)',
-	'technique': 'Coq (wf_schema + theorems, kernel obligation per generated program) + vm_compute differential of generated modules against the schema interpreter',
+	'technique': 'Coq (wf_schema_full + theorems, kernel obligation per generated program) + vm_compute differential of generated modules against the schema interpreter',
 }
 
 HELPERS = ['ArrayHelpers.py', 'BaseValue.py', 'ByteArray.py', 'Ordered.py', 'Transforms.py', 'ripemd160.py']
